@@ -4,13 +4,6 @@ From NX Require Import Bytes Reasm Reasm_proofs Trans Worker Worker_proofs Hands
   Pinned_comm Pinned_thread.
 From Coq Require Import String.
 From NX Require PyLite Src_all Src_serialframe_proofs Src_reasm_proofs Src_handshake_base Src_handshake_devinfo Src_handshake_proofs.
-From NX Require Bytes PyStruct Crc PyLite PyLite_tactics PyLite_tactics_ext PyLite_tactics_try
-  Src_dev Src_iparse Src_parse Src_comm Src_nxscope Src_prelude Src_all
-  Src_serialframe_proofs Src_parse_req_lemmas Src_records_proofs Src_config_base Src_config_req Src_config_write
-  Src_handshake_base Src_handshake_devinfo Src_handshake_proofs
-  Src_lc_base Src_lc_devinfo Src_lifecycle_comm Src_lifecycle_nx Src_lifecycle_nx_ops Src_lifecycle_proofs.
-From NX Require Frame Request Info Config Handshake.
-From Coq Require String Ascii NArith.
 Import ListNotations.
 Open Scope nat_scope.
 
@@ -112,66 +105,8 @@ Theorem C10_devinfo_is_the_model_src : forall n w p d q qs,
 Proof. exact devinfo_get_spec_const. Qed.
 End OnSource.
 
-(** ** CommHandler.connect / disconnect (_start with its clean-up handler, _stop) as they are now, on the
-    complete handler object, both frame queues scripted with ANY items of ANY length: constant fuel,
-    bounded requests, the clean-up done at every raise, disconnect never raises. *)
-Section OnSourceLifecycle.
-Import String Ascii ZArith NArith Bytes PyStruct Crc PyLite PyLite_tactics PyLite_tactics_ext PyLite_tactics_try
-  Src_dev Src_iparse Src_parse Src_comm Src_nxscope Src_prelude Src_all
-  Src_serialframe_proofs Src_parse_req_lemmas Src_records_proofs Src_config_base Src_config_req Src_config_write
-  Src_handshake_base Src_handshake_devinfo Src_handshake_proofs
-  Src_lc_base Src_lc_devinfo Src_lifecycle_comm Src_lifecycle_nx Src_lifecycle_nx_ops Src_lifecycle_proofs.
-Open Scope string_scope.
-Open Scope Z_scope.
-Theorem C10_start_outcomes_src : forall n (r : bool) (s t : Z) ev w p d q qs rest cmax,
-  crest rest -> (265 <= n)%nat -> chmax_le cmax q ->
-  let s' := if r then s else s + 1 in
-  let run := call_func program n CommHandler__start
-               [gcomm (PBool false) (fake_thread r s t) ev w p d PNone (map item_pv q) (map item_pv qs) rest] [] in
-  (exists cm fl rxp acc w' p' d' q' qs',
-     run = PyLite.Ok (PNone, Some (gcomm (PBool true) (fake_thread true s' t) (ev ++ ["intf.start"]) w' p' d'
-                                     (dev_of cm fl rxp acc) (map item_pv q') (map item_pv qs')
-                                     [("_channels", chans_obj (init_cli (map chan_desc_of acc)))])) /\
-     start_bounds cmax w q qs w' q' qs') \/
-  (exists e w' p' d' q' qs',
-     In e ["TimeoutError"; "struct.error"; "UnicodeDecodeError"] /\
-     run = ExcS e (self_st (gcomm (PBool false) (fake_thread false s' (t + 1)) (ev ++ ["intf.start"; "intf.stop"])
-                              w' p' d' PNone (map item_pv q') (map item_pv qs') rest)) /\
-     start_bounds cmax w q qs w' q' qs' /\
-     (e = "TimeoutError" <-> none_rounds 6 (start_state w p d q qs) = Some (w', p', d', q', qs'))).
-Proof. exact start_outcomes. Qed.
-
-Theorem C10_connect_request_bound_src : forall w q qs w' q' qs',
-  start_bounds 255 w q qs w' q' qs' ->
-  (List.length w' <= List.length w + 1 + Handshake.connect_attempts * (2 + 255 * Handshake.chinfo_attempts))%nat.
-Proof. exact start_request_bound. Qed.
-
-Theorem C10_disconnect_returns_src : forall n (b r : bool) s t ev w p d dev q qs rest,
-  crest rest -> (266 <= n)%nat ->
-  exists self',
-    call_method program n (gcomm (PBool b) (fake_thread r s t) ev w p d dev (map item_pv q) (map item_pv qs) rest)
-      "disconnect" [] = PyLite.Ok (PNone, self').
-Proof. exact disconnect_returns. Qed.
-
-Theorem C10_connect_disconnect_src : forall n r s t ev w p d q qs rest self1,
-  crest rest -> (266 <= n)%nat ->
-  call_method program n (gcomm (PBool false) (fake_thread r s t) ev w p d PNone (map item_pv q) (map item_pv qs) rest)
-    "connect" [] = PyLite.Ok (PNone, self1) ->
-  exists w' p' d' q' qs' c,
-    call_method program n self1 "disconnect" [] =
-    PyLite.Ok (PNone, gcomm (PBool false) (fake_thread false (if r then s else s + 1) (t + 1))
-                        (ev ++ ["intf.start"; "intf.stop"]) w' p' d' PNone (map item_pv q') (map item_pv qs')
-                        [("_channels", c)]).
-Proof. exact connect_disconnect. Qed.
-
-End OnSourceLifecycle.
-
 Print Assumptions C10_connect_bounded.
 Print Assumptions C10_recv_returns.
 Print Assumptions C10_stop_terminates.
 Print Assumptions C10_devinfo_returns_src.
 Print Assumptions C10_devinfo_consumes_src.
-Print Assumptions C10_start_outcomes_src.
-Print Assumptions C10_connect_request_bound_src.
-Print Assumptions C10_disconnect_returns_src.
-Print Assumptions C10_connect_disconnect_src.
